@@ -32,6 +32,10 @@ CHECKS = {
   "text": "Seeded search over counts {0,1,2,5,None, changing callable, raising callable} x blocking/non-blocking x 1-3 submitter threads x completion orders x cancels of queued futures x schedules, over a scripted 8-worker delegate. Oracles: admission safety at every hand-over against the value most recently returned to the hand-over thread (last good value if it raised), FIFO by real-time precedence of submit calls, no hand-over / blocked submit released only by a 2 s / 30 s fallback timer while the (static) configuration already allowed progress - exact because at a virtual clock jump nobody is runnable -, submit() works for every count in blocking mode.",
   "note": "A future counts as in flight until set_result (or a successful cancel) has begun - conservative for the safety oracle; dynamic counts are exempt from the promptness oracle as the property allows; blocking with count 0 excluded.",
   "design": "10 (C07)"},
+ "C08": {
+  "text": "Seeded search over numbers of polled futures x delegate completion times and failures x per-call poll-function behaviour (yield result / exception / twice / never after k sightings, raise at call k, odd intervals, taking virtual time) x cancel-function behaviour x cancel()/notify() from other threads placed inside windows by semantic triggers x schedules. Oracles by interval reasoning over the simulator's global event sequence: no overlapping poll calls, descriptor set between the must-include and may-include sets, result carried, first effective yield wins, a raising call fails exactly what it was shown, prompt poll after eligibility / notify (virtual time, stall-free), cancel-function contract.",
+  "note": "Membership is judged against [end of previous call, entry of this call] because the snapshot-to-call window is inherent in the design; a yield that lost the race to a cancel() is not a resolving call.",
+  "design": "10 (C08)"},
 }
 def main():
     checks = []
